@@ -432,8 +432,9 @@ def _probes():
         'check_sig_verify': (push(sig0) + push(PUBS[1]) + op('CHECK_SIG_VERIFY') + b'\x00' + mark(b'm3'), None, None, 1),
         'multisig': (push(sig0) + push(PUBS[1]) + push(PUBS[2]) + op('CHECK_MULTISIG') + b'\x00\x01\x02' + op('POP0') + mark(b'm4'), None, None, 1),
         'check_template(flag10)': (push(b'abc') + op('CHECK_TEMPLATE') + b'\x01' + op('POP0') + mark(b'm5'), 10, None, 1),
-        'check_timestamp': (push((tsh.Pins.now - 5).to_bytes(5, 'big')) + op('CHECK_TIMESTAMP') + op('POP0') + mark(b'm6'), None, None, 0),
-        'check_epoch': (push((tsh.Pins.now + 30).to_bytes(5, 'big')) + op('CHECK_EPOCH') + op('POP0') + mark(b'm7'), None, None, 0),
+        # the RESULT is stored (cache[m6] / cache[m7]), so a threshold that differs at some depth changes the final state
+        'check_timestamp': (push((tsh.Pins.now - 5).to_bytes(5, 'big')) + op('CHECK_TIMESTAMP') + op('WRITE_CACHE') + b'\x02m6\x01', None, None, 0),
+        'check_epoch': (push((tsh.Pins.now + 30).to_bytes(5, 'big')) + op('CHECK_EPOCH') + op('WRITE_CACHE') + b'\x02m7\x01', None, None, 0),
         'eval': (push(b'\x01') + op('EVAL') + op('POP0') + mark(b'm8'), None, None, 0),
         'taproot-keypath': (push(sig0) + push(PUBS[1]) + op('TAPROOT') + b'\x00' + op('POP0') + mark(b'm9'), None, None, 1),
         'set_flag': (op('SET_FLAG') + b'\x01\x02' + mark(b'mA'), None, None, 0),
@@ -468,7 +469,13 @@ def c09_task(task):
     dis, viol, samples = [], [], []
     n = 0
     rng = random.Random(seed)
-    sf = {'sigfield1': b'abc', 'sigfield2': b'xyz'}
+    # the execution timestamp is 10 s ahead of the verifier clock: inside the default slack (60), outside a slack of 3
+    sf = {'sigfield1': b'abc', 'sigfield2': b'xyz', 'timestamp': tsh.Pins.now + 10}
+    top_level = {}
+
+    def result_keys(line):
+        f = line.split(' | ')
+        return sorted(e for e in (f[4].split(',') if len(f) > 4 else []) if e.startswith(('b6d36=', 'b6d37=')))
     for combo in combos:
         for pname, (pb, fkey, ckey, nsig) in probes.items():
             for cd in (C09_CFGS if len(combo) <= 1 else rng.sample(C09_CFGS, 3)):
@@ -487,6 +494,17 @@ def c09_task(task):
                 f = iline.split(' | ')
                 if len(f) < 6:
                     continue
+                # (e) time constraints give the same result at every depth as at top level under the same configuration
+                if pname in ('check_timestamp', 'check_epoch') and combo and 'loop' not in combo:
+                    key = (pname, repr(sorted(cd.items(), key=repr)))
+                    if key not in top_level:
+                        top_level[key] = result_keys(tsh.impl_run_script(pb, sf, cfg))
+                    got_r = result_keys(iline)
+                    if got_r and got_r != top_level[key]:
+                        stats['direct-fail'] += 1
+                        if len(viol) < 8:
+                            viol.append(dict(what='%s inside %s gives %s, at top level under the same configuration %s'
+                                             % (pname, '/'.join(combo), got_r, top_level[key]), case=case))
                 cache_f, log_f = f[4], f[5]
                 keys = set(e.split('=')[0] for e in cache_f.split(','))
                 evalish = any(c in ('eval', 'merkleval', 'taproot-script') for c in combo) or pname == 'eval'
